@@ -96,7 +96,9 @@ func (m *MessageBuffer) Send(msg []byte) error {
 		return ErrClosed
 	}
 
-	l := len(msg)
+	// Account for what [msg] adds to the encoded batch (payload plus framing),
+	// so that a flushed batch never exceeds [maxSize].
+	l := batchedSize(msg)
 	if l > m.maxSize {
 		return ErrMessageTooLarge
 	}
